@@ -420,7 +420,8 @@ Inductive ret :=
 Definition handle (ss : sess) (h : Z) : option nat :=
   if h <? 0 then None else nth_error (htab ss) (Z.to_nat h).
 
-Definition stack_at (ss : sess) (k : nat) : nat := nth k (stab ss) k.
+(* an index beyond the table denotes the first stack (as in the driver) *)
+Definition stack_at (ss : sess) (k : nat) : nat := nth k (stab ss) 0%nat.
 
 Fixpoint index_of (x : nat) (l : list nat) : option nat :=
   match l with
